@@ -81,7 +81,7 @@ def main():
         n2 = sum(" exit=2 " in l for l in lines)
         n1 = sum(" exit=1 " in l for l in lines)
         out += ["### 12.5 Behaviour-preserving changes (false-alarm probe)", "",
-                "A further sub-agent (same isolation) wrote 16 harmless refactorings of functions under contract (renamed locals, reordered "
+                "A further sub-agent (same isolation) wrote 16 harmless refactorings (B17 was added by me after wave 3: the behaviour-preserving counterpart of seed C03_x1) of functions under contract (renamed locals, reordered "
                 "independent statements, algebraically identical expressions, introduced / inlined temporaries, swapped if/else with the negated "
                 "condition, loop <-> comprehension, hoisted invariants, comments); kept in `selftest/benign/B*/`. `selftest/benign_probe.sh` runs, "
                 "for each, the quick check of every property with a contract on the changed file against a scratch worktree.",
